@@ -167,18 +167,18 @@ def run(chk: Check) -> None:
     n = len(pool)
     # longer lists: sampled with VERIF_SEED, expected outcome still computed by TLC
     extra = []
-    for _ in range(chk.pick(60, 600)):
+    for _ in range(chk.pick(60, 3000)):
         k = chk.rng.choice([3, 3, 4])
         extra.append(tuple(chk.rng.randrange(1, n + 1) for _ in range(k)))
-    cases, ids = _check_registry(chk, registry, "working-tree", pool, def_exc, chk.pick(1, 2), extra)
+    cases, ids = _check_registry(chk, registry, "working-tree", pool, def_exc, 2, extra)
 
     syn = _synthetic_registry()
     spool = _glob_pool()
-    sextra = [tuple(chk.rng.randrange(1, len(spool) + 1) for _ in range(3)) for _ in range(chk.pick(40, 400))]
-    _check_registry(chk, syn, "synthetic", spool, def_exc, chk.pick(1, 2), sextra)
+    sextra = [tuple(chk.rng.randrange(1, len(spool) + 1) for _ in range(3)) for _ in range(chk.pick(40, 2000))]
+    _check_registry(chk, syn, "synthetic", spool, def_exc, 2, sextra)
 
     # ---- end-to-end sample through the CLI, judged by Trace_Run
-    e2e_n = chk.pick(24, 160)
+    e2e_n = chk.pick(24, 300)
     # prefer selections that stay cheap: at most 6 codemods selected
     cheap = [(sc, exp) for sc, exp in cases if all(len(e) <= 6 for e in exp) and sc["list"]]
     chk.rng.shuffle(cheap)
